@@ -75,6 +75,10 @@ func coResume(L *LState) int {
 	} else {
 		nargs := L.GetTop() - 1
 		L.XMoveTo(th, nargs)
+		if th.yieldNRet != MultRet {
+			// adjust to the number of results the pending yield expects
+			th.reg.SetTop(th.reg.Top() - nargs + th.yieldNRet)
+		}
 	}
 	top := L.GetTop()
 	threadRun(th)
